@@ -6,7 +6,7 @@ use triomphe::Arc;
 
 fn main() {
     let mut t = Tally::new();
-    for r in 0..rounds(4) {
+    for r in 0..rounds(6) {
         let old = 200 + r as u64;
         let new = old + 500;
         let a = Arc::new(Payload::new(old));
